@@ -478,6 +478,11 @@ func init() {
 					return Str{s: s}
 				}
 			}
+			if f.IsConcrete() {
+				if out, ok := e.symbolicFormat(f.s, va); ok {
+					return out
+				}
+			}
 			e.unsupported("fmt.Sprintf with symbolic operands")
 			return nil
 		},
@@ -872,4 +877,64 @@ func (e *Engine) uniPred(name string, r *Term) *Term {
 		}
 	}
 	return e.tt.App("unicode."+name, BoolSort, r)
+}
+
+// symbolicFormat: Sprintf for a concrete format whose verbs are %s / %v on strings and %d / %v on integers
+// (operands may be symbolic: strings are concatenated, integers rendered by itoa), plus %%.
+func (e *Engine) symbolicFormat(format string, va Slice) (Str, bool) {
+	out := Str{}
+	ai := 0
+	for i := 0; i < len(format); i++ {
+		c := format[i]
+		if c != '%' {
+			out = e.strConcat(out, Str{s: string(c)})
+			continue
+		}
+		i++
+		if i >= len(format) {
+			return Str{}, false
+		}
+		v := format[i]
+		if v == '%' {
+			out = e.strConcat(out, Str{s: "%"})
+			continue
+		}
+		if ai >= len(va) {
+			return Str{}, false
+		}
+		it, ok := va[ai].(Iface)
+		ai++
+		if !ok || it.T == nil {
+			return Str{}, false
+		}
+		switch x := it.V.(type) {
+		case Str:
+			if v != 's' && v != 'v' {
+				return Str{}, false
+			}
+			if _, isBasic := it.T.Underlying().(*types.Basic); !isBasic {
+				return Str{}, false
+			}
+			out = e.strConcat(out, x)
+		case *Term:
+			b, isBasic := it.T.Underlying().(*types.Basic)
+			if !isBasic || b.Info()&types.IsInteger == 0 || !isSignedBasic(b) || (v != 'd' && v != 'v') {
+				return Str{}, false
+			}
+			if named, isNamed := it.T.(*types.Named); isNamed && named.NumMethods() > 0 {
+				return Str{}, false // may have a String method
+			}
+			t := x
+			if t.Sort.W < 64 {
+				t = e.tt.SExt(t, 64)
+			}
+			out = e.strConcat(out, e.itoa(t))
+		default:
+			return Str{}, false
+		}
+	}
+	if ai != len(va) {
+		return Str{}, false
+	}
+	return out, true
 }
